@@ -319,6 +319,28 @@ func (v *Verifier) VerifyFunc(fc *FuncContract) {
 	for n := range noteSet {
 		rep.Notes = append(rep.Notes, n)
 	}
+	// blocks of the function itself that no explored path ever jumped into: dead by the
+	// engine's own (concrete) knowledge, not by a solver's verdict - either unreachable
+	// code or a sign that the engine believes something about the state it should not
+	if ex.Aborted == "" && fn.Blocks != nil {
+		for _, b := range fn.Blocks[1:] {
+			if ex.Entered[b] || b.Comment == "recover" {
+				continue
+			}
+			dead := true
+			for _, p := range b.Preds {
+				if p == fn.Blocks[0] || ex.Entered[p] {
+					dead = false // reported at the frontier only
+				}
+			}
+			if dead && len(b.Preds) > 0 {
+				continue
+			}
+			if pos := firstPos(b); pos.IsValid() {
+				rep.Notes = append(rep.Notes, "never explored: block "+b.Comment+" at "+ex.pos(pos))
+			}
+		}
+	}
 	sort.Strings(rep.Notes)
 	for _, c := range fc.Clauses {
 		if c.Kind == "ensures" && c.appliesTo(v.Prop, fc) {
